@@ -430,8 +430,14 @@ def check_concrete(C, args, ghosts):
             try:
                 if not _concrete_ok(f):
                     bad.append(label)
+            except _NoSuchCall as exc:
+                # the contract talks about a call of a hooked callee that the native run did not record (the wrapper is
+                # installed by name in the target's module only): that says nothing about the code
+                return [], f'not evaluable natively: {label}: {exc}'
             except Exception as exc:
                 bad.append(f'{label} (evaluation error: {type(exc).__name__}: {exc})')
+    except _NoSuchCall as exc:
+        return [], f'not evaluable natively: ensures: {exc}'
     except Exception as exc:
         bad.append(f'ensures (evaluation error: {type(exc).__name__}: {exc})')
     return bad, f'returned {_short(val)}'
